@@ -84,7 +84,7 @@ func runC17(c *Ctx) {
 		switch {
 		case strings.Contains(fn, "VStruct"):
 			// the path parameter, or (only on the outermost-object edge, where the path is empty) the type's name
-			outer := we.E.PC[`eq("",structName)`] == 1
+			outer := we.E.PC[outermostAtom(p)] == 1
 			if !(fields["objName"] == "structName" || outer && strings.HasSuffix(fields["objName"], ".name")) {
 				a.bad = append(a.bad, "struct walker registers a member without its object path (objName = "+shorten(fields["objName"], 60)+")")
 			}
